@@ -188,6 +188,9 @@ def expand_chunk(hists):
 KINDS = {
     'sec': '\\section{T{L}}{I}',
     'secafter': '\\section{T}{L}{I}',
+    # a starred command without a counter between the unit and its label (it numbers nothing, so it is not the labelled object)
+    'secvstar': '\\section{T}\\vspace*{1cm}{L}{I}',
+    'secnlstar': '\\section{T}w\\\\*{L}{I}',
     'sub': '\\subsection{T}{L}{I}',
     'eq': '\\begin{equation}a{L}\\end{equation}',
     'row1': '\\begin{eqnarray}a&=&b{L}\\\\ c&=&d\\end{eqnarray}',
@@ -213,7 +216,7 @@ def numbers(objs):
     c = {'section': 0, 'subsection': 0, 'equation': 0, 'figure': 0, 'table': 0, 'thm': 0}
     out = []
     for k in objs:
-        if k in ('sec', 'secafter'):
+        if k in ('sec', 'secafter', 'secvstar', 'secnlstar'):
             c['section'] += 1
             c['subsection'] = 0
             out.append(str(c['section']))
@@ -286,7 +289,7 @@ def locate(doc, objs):
         return lst[i] if i < len(lst) else None
     out = []
     for kind in objs:
-        if kind in ('sec', 'secafter'):
+        if kind in ('sec', 'secafter', 'secvstar', 'secnlstar'):
             out.append([take('section')])
         elif kind == 'sub':
             out.append([take('subsection')])
@@ -519,8 +522,8 @@ def run(tier, seed, rep):
     blocks = []
     for k in (1, 2) if quick else (1, 2, 3):
         for objs in itertools.product(kinds, repeat=k):
-            if objs[0] == 'sub' or ('sub' in objs and objs[objs.index('sub') - 1] not in ('sec', 'secafter', 'sub')
-                                    and not any(o in ('sec', 'secafter') for o in objs[:objs.index('sub')])):
+            if objs[0] == 'sub' or ('sub' in objs and objs[objs.index('sub') - 1] not in ('sec', 'secafter', 'sub', 'secvstar', 'secnlstar')
+                                    and not any(o in ('sec', 'secafter', 'secvstar', 'secnlstar') for o in objs[:objs.index('sub')])):
                 continue    # a subsection needs a section before it for the expected number to be defined
             blocks.append((objs, 2 if k < 3 else 1))
     # second run in the same directory: two unlabelled-in-the-first-run objects in front shift every number
